@@ -196,21 +196,67 @@ package rtsp
 //@   modifies
 //@   fresh resp
 //@   ensures resp != nil && resp.StatusCode == code && resp.Header != nil && resp.Request == req
+// helpers of the handlers: assumed frames only
+//@ import "github.com/cnotch/ipchub/utils"
+//@ import "fmt"
+//@ extern func utils.CanonicalPath(p string) (r string)
+//@   modifies
+//@ extern func fmt.Sprintf(format string, a ...interface{}) (r string)
+//@   modifies
+//@ extern func (u *url.URL) Port() (p string)
+//@   modifies
+//@ extern func (u *url.URL) String() (r string)
+//@   modifies
+//@ extern func strings.LastIndex(s string, substr string) (i int)
+//@   modifies
+//@ func (s *Session) parseSdp(rawSdp string) (err error)
+//@   trusted
+//@   requires s != nil
+//@   modifies s.rawSdp, s.sdp, s.aControl, s.vControl, s.aCodec, s.vCodec, misc(s)
+//@ func getControlPath(ctrl string) (path string, err error)
+//@   trusted
+//@   modifies
+//@ func (t *RTPTransport) ParseTransport(rtpType int, ts string) (err error)
+//@   trusted
+//@   requires t != nil
+//@   modifies *t
+//@ extern func (m media.Multicastable) MulticastIP() (r string)
+//@   modifies
+//@ extern func (m media.Multicastable) Port(index int) (r int)
+//@   modifies
+//@ extern func (m media.Multicastable) SourceIP() (r string)
+//@   modifies
+//@ extern func (m media.Multicastable) TTL() (r int)
+//@   modifies
+//@ spec func pullOK(s *Session) bool = s.authMode == auth.NoneAuth || (s.user != nil && permits(s.user, s.path, auth.PullRight))
+//@ spec func pushOK(s *Session) bool = s.authMode == auth.NoneAuth || (s.user != nil && permits(s.user, s.path, auth.PushRight))
+
+// DESCRIBE: the session becomes a play session only when the stream exists, its SDP parses and the user may pull the
+// requested path; any refusal (404 / 403) leaves the mode as it was; the state never changes here
 //@ func (s *Session) onDescribe(resp *Response, req *Request) ()
-//@   trusted
-//@   requires s != nil && resp != nil && req != nil
-//@   modifies resp.StatusCode, resp.Status, resp.Body, misc(resp.Header), s.status, s.mode, s.url, s.path, s.rawSdp, s.sdp, s.aControl, s.vControl, s.aCodec, s.vCodec, misc(s)
-//@   ensures s.status == old(s.status)
+//@   requires s != nil && resp != nil && req != nil && req.URL != nil && resp.Header != nil
+//@   modifies resp.StatusCode, resp.Body, misc(resp.Header), s.mode, s.url, s.path, s.rawSdp, s.sdp, s.aControl, s.vControl, s.aCodec, s.vCodec, misc(s)
+//@   ensures s.mode == old(s.mode) || (s.mode == PlaySession && resp.StatusCode == old(resp.StatusCode) && pullOK(s))
+//@   ensures !pullOK(s) ==> resp.StatusCode == StatusForbidden || resp.StatusCode == StatusNotFound
+
+// ANNOUNCE: the session becomes a record session only for an SDP body that parses and a user who may push the path
 //@ func (s *Session) onAnnounce(resp *Response, req *Request) ()
-//@   trusted
-//@   requires s != nil && resp != nil && req != nil
-//@   modifies resp.StatusCode, resp.Status, misc(resp.Header), s.status, s.mode, s.url, s.path, s.rawSdp, s.sdp, s.aControl, s.vControl, s.aCodec, s.vCodec, misc(s)
-//@   ensures s.status == old(s.status)
+//@   requires s != nil && resp != nil && req != nil && req.URL != nil && req.Header != nil
+//@   modifies resp.StatusCode, s.mode, s.url, s.path, s.rawSdp, s.sdp, s.aControl, s.vControl, s.aCodec, s.vCodec, misc(s)
+//@   ensures s.mode == old(s.mode) || (s.mode == RecordSession && resp.StatusCode == old(resp.StatusCode) && pushOK(s))
+//@   ensures !pushOK(s) ==> resp.StatusCode == StatusForbidden || resp.StatusCode == StatusBadRequest
+
+// SETUP: the session gets ready only when the transport parses, agrees with the mode chosen by DESCRIBE / ANNOUNCE
+// (or fixes it), the user has the right that mode needs, and a record session uses TCP unicast; every refusal
+// leaves the state as it was
 //@ func (s *Session) onSetup(resp *Response, req *Request) ()
-//@   trusted
-//@   requires s != nil && resp != nil && req != nil
-//@   modifies resp.StatusCode, resp.Status, misc(resp.Header), s.status, s.transport, misc(s)
-//@   ensures s.status == old(s.status) || (old(s.status) == statusInit && s.status == statusReady)
+//@   requires s != nil && resp != nil && req != nil && req.URL != nil && resp.Header != nil && req.Header != nil
+//@   modifies resp.StatusCode, resp.Status, misc(resp.Header), s.status, s.mode, s.transport, misc(s)
+//@   ensures s.status == old(s.status) || (old(s.status) < statusReady && s.status == statusReady)
+//@   ensures s.status != old(s.status) ==> resp.StatusCode == old(resp.StatusCode) && s.mode == s.transport.Mode
+//@   ensures s.status != old(s.status) && s.mode == RecordSession ==> s.transport.Type == RTPTCPUnicast && pushOK(s)
+//@   ensures s.status != old(s.status) && s.mode != RecordSession ==> pullOK(s)
+//@   ensures old(s.mode) != UnknownSession ==> s.mode == old(s.mode)
 
 // the method-order check: a method that is not legal in the current state is answered 455 here, before any
 // authentication or handler runs, and nothing of the session changes; OPTIONS and TEARDOWN are always answered
@@ -227,7 +273,7 @@ package rtsp
 
 // one response per request: every path through the dispatcher answers exactly once (unless the write itself fails)
 //@ func (s *Session) onRequest(req *Request) (err error)
-//@   requires sessOK(s) && req != nil && req.Header != nil
+//@   requires sessOK(s) && req != nil && req.Header != nil && req.URL != nil
 //@   modifies all()
 //@   local resp *Response
 //@   assert[call:response] !old(legalRFC(s.status, req.Method)) ==> resp.StatusCode == StatusMethodNotValidInThisState
